@@ -90,14 +90,39 @@ def _remainder_after_failed_isinstance(
     value: Value, pattern_value: Value
 ) -> Optional[Value]:
     """What remains of a value that is statically assignable to the pattern when a
-    runtime isinstance() check against the pattern failed."""
+    runtime isinstance() (or issubclass()) check against the pattern failed."""
     pattern_types = []
+    is_subclass_check = False
     for subval in flatten_values(pattern_value, unwrap_annotated=True):
+        if isinstance(subval, SubclassValue) and isinstance(subval.typ, TypedValue):
+            is_subclass_check = True
+            subval = subval.typ
         if isinstance(subval, TypedValue) and isinstance(subval.typ, type):
             pattern_types.append(subval.typ)
         else:
             return None
     inner = unannotate(value)
+    if is_subclass_check:
+        # issubclass(): look at the class itself
+        if isinstance(inner, KnownValue) and isinstance(inner.val, type):
+            cls = inner.val
+        elif isinstance(inner, SubclassValue) and isinstance(inner.typ, TypedValue):
+            cls = inner.typ.typ
+        else:
+            return None
+        if not isinstance(cls, type):
+            return None
+        if not safe_issubclass(cls, tuple(pattern_types)):
+            return value
+        if isinstance(inner, SubclassValue) and cls in _PROMOTED_TYPES:
+            remaining = [
+                SubclassValue(TypedValue(typ))
+                for typ in _PROMOTED_TYPES[cls]
+                if not safe_issubclass(typ, tuple(pattern_types))
+            ]
+            if remaining:
+                return unite_values(*remaining)
+        return None
     if isinstance(inner, KnownValue):
         try:
             is_instance = isinstance(inner.val, tuple(pattern_types))
